@@ -72,10 +72,17 @@ func (ft *funcTrans) call(in ssa.CallInstruction, val *ssa.Call) {
 	c := ft.calleeContract(com)
 	name := calleeName(com)
 	st := ft.curSt
+	inferredFrame := callee != nil && ft.p.writesOnlyFresh(callee)
 	if c == nil {
-		// unknown callee: havoc everything, result unconstrained
-		w.assumptions["call without contract: "+name+" (result and heap havocked)"] = true
-		ft.havocAll(st)
+		// unknown callee: result unconstrained; heap havocked unless the callee
+		// provably writes only memory it allocates itself
+		if inferredFrame {
+			w.assumptions["call without contract: "+name+" (result unconstrained; frame inferred from its body: writes only fresh memory)"] = true
+			ft.bumpAlloc(st)
+		} else {
+			w.assumptions["call without contract: "+name+" (result and heap havocked)"] = true
+			ft.havocAll(st)
+		}
 		if val != nil {
 			ft.havocValue(val, "")
 		}
@@ -146,7 +153,9 @@ func (ft *funcTrans) call(in ssa.CallInstruction, val *ssa.Call) {
 		o.Where = posStr(ft.p.SSA.Fset, in.Pos())
 	}
 	// havoc
-	if !c.HasAssigns {
+	if !c.HasAssigns && inferredFrame {
+		ft.bumpAlloc(st)
+	} else if !c.HasAssigns {
 		ft.havocAll(st)
 	} else {
 		for _, a := range c.Assigns {
